@@ -20,6 +20,7 @@ from vlib import Inconclusive, log
 
 CHECKS = ["C13_Config", "C13_Effective", "C13_Rollback", "C13_NullUniform", "C13_Stored"]
 KF_L18 = "KF-L18-reuse-values-null-dropped"
+KF_SUBDEP = "KF-C13-reuse-values-stored-chart-without-dependencies"
 DRIVERS = ["secret", "configmap", "memory"]
 
 # exhaustive configurations (constants, replay cap) and simulation (constants, behaviours) per tier
@@ -36,13 +37,13 @@ def describe(c):
     parts = []
     for s in c["steps"]:
         if s["op"] == "rollback":
-            parts.append("rollback to %d" % s["target"])
+            parts.append(("(its own rollback to %d)" if s.get("auto") else "rollback to %d") % s["target"])
         elif s["op"] == "install":
             parts.append("install chart%d %s" % (s["chart"], vl.show(s["vals"])))
         else:
             names = {"default": "", "reset": " --reset-values", "reuse": " --reuse-values", "rtr": " --reset-then-reuse-values"}
             flag = "".join(names[m] for m in s["mode"].split("+"))
-            parts.append("upgrade%s chart%d %s%s" % (flag, s["chart"], vl.show(s["vals"]), " (cluster update fails)" if s.get("fail") else ""))
+            parts.append("upgrade%s chart%d %s%s" % (flag, s["chart"], vl.show(s["vals"]), (" --atomic" if s.get("atomic") else "") + (" (cluster update fails)" if s.get("fail") else "")))
     return "[%s] %s" % (c.get("driver", "secret"), " ; ".join(parts))
 
 
@@ -52,7 +53,7 @@ def judge(d, hv, chains):
     nobs = sum(1 for _ in open(os.path.join(d, "cobs.ndjson")))
     if nobs != len(chains):
         raise Inconclusive("harness wrote %d observations for %d chains" % (nobs, len(chains)))
-    vl.write_cfg(d, "ValuesChainObs.cfg", {}, subst=[("Defaults", "DefaultsObs")], post="Done")
+    vl.write_cfg(d, "ValuesChainObs.cfg", {}, subst=[("Defaults", "DefaultsObs"), ("SubDefaults", "SubDefaultsObs")], post="Done")
     out, states, mdt = vl.run_monitor(d, "ValuesChainObs.tla", "ValuesChainObs.cfg", len(chains), timeout=3000)
     m = re.search(r'<<"OBSECHO", (\d+), "([^"]*)", "([^"]*)">>', out)
     if m:
@@ -63,7 +64,7 @@ def judge(d, hv, chains):
                            % (m.group(2), m.group(3), m.group(4), describe(chains[int(m.group(1)) - 1])))
     viols = []
     for m in re.finditer(r'<<"OBSVIOL", (\d+), "([A-Za-z0-9_]+)", (\d+), "([^"]*)", "([^"]*)">>', out):
-        viols.append((m.group(2), chains[int(m.group(1)) - 1], int(m.group(3)), m.group(5) == "L18"))
+        viols.append((m.group(2), chains[int(m.group(1)) - 1], int(m.group(3)), m.group(5)))
     revs = ops = 0
     for l in open(os.path.join(d, "cobs.ndjson")):
         o = json.loads(l)
@@ -76,9 +77,13 @@ def judge(d, hv, chains):
 def report(pid, viols, viol_dir, listed, replay_path=None):
     known = collections.Counter()
     real = []
-    for check, c, step, l18 in viols:
-        if l18 and check in ("C13_Config", "C13_Effective") and KF_L18 in listed:
+    for check, c, step, shape in viols:
+        if shape == "L18" and check in ("C13_Config", "C13_Effective") and KF_L18 in listed:
             known[KF_L18] += 1
+        elif (shape == "SUBDEP" and check == "C13_Effective" and c.get("driver", "secret") in ("secret", "configmap")
+              and KF_SUBDEP in listed):
+            # the release record read back from Secret / ConfigMap storage has no dependencies
+            known[KF_SUBDEP] += 1
         else:
             real.append((check, c, step))
     for kf, n in sorted(known.items()):
@@ -124,7 +129,7 @@ def run(pid, tier, seed, replay=None):
     ndefaults = None
     for consts, cap in PLAN[tier]["ex"]:
         vl.write_cfg(d, "ValuesChainMC_run.cfg", dict(Term=False, **consts), constraint="ExportBatch",
-                     subst=[("Defaults", "DefaultsDef")])
+                     subst=[("Defaults", "DefaultsDef"), ("SubDefaults", "SubDefaultsDef")])
         cs, st = vl.enumerate_exhaustive(d, "ValuesChainMC.tla", "ValuesChainMC_run.cfg", tmo)
         if not cs:
             raise Inconclusive("TLC exported no chain")
@@ -143,7 +148,7 @@ def run(pid, tier, seed, replay=None):
                            tlc_states=st["distinct"], tlc_seconds=st["seconds"]))
     for consts, num in PLAN[tier]["sim"]:
         vl.write_cfg(d, "ValuesChainMC_sim.cfg", dict(Term=True, **consts), constraint="ExportOne",
-                     subst=[("Defaults", "DefaultsDef")])
+                     subst=[("Defaults", "DefaultsDef"), ("SubDefaults", "SubDefaultsDef")])
         cs, st = vl.enumerate_simulate(d, "ValuesChainMC.tla", "ValuesChainMC_sim.cfg", num, consts["MaxLen"] + 2, seed, tmo)
         for c in cs:
             c["id"] = "sim_" + c["id"]
